@@ -1298,7 +1298,16 @@ def r8_path_templates_are_openapi_templates(ctx):
               wild[0] if wild else pf)
 
 
-RULES = [("C06.R8", r8_path_templates_are_openapi_templates), ("C06.R1", r1_same_filter), ("C06.R2", r2_unpublished), ("C06.R3", r3_placement), ("C06.R4", r4_refs_resolve), ("C06.R4b", r4b_dependencies_transitive),
+def r9_error_reference_resolves_to_its_own_response(ctx):
+    """`every schema or response reference in the document resolves inside the document` -- to the entry meant: an operation's 4XX/5XX
+    reference names the components.responses entry stored for that endpoint's error type.  This is C07.R9, re-evaluated here (adversary
+    change C06-K: after a rename the reference was formatted from the un-disambiguated name, so `Error2` was stored and never referred to)."""
+    from . import c07
+    from .lib_c01 import Renamed
+    c07.r9_error_reference_names_the_stored_response(Renamed(ctx, "C06.R9", "the error-response reference of an operation is formatted from the very name its response is stored under"))
+
+
+RULES = [("C06.R9", r9_error_reference_resolves_to_its_own_response), ("C06.R8", r8_path_templates_are_openapi_templates), ("C06.R1", r1_same_filter), ("C06.R2", r2_unpublished), ("C06.R3", r3_placement), ("C06.R4", r4_refs_resolve), ("C06.R4b", r4b_dependencies_transitive),
          ("C06.R5", r5_determinism), ("C06.R6", r6_idempotent), ("C06.R7", r7_order_independent)]
 
 AD = "dropshot/src/api_description.rs"
